@@ -536,6 +536,15 @@ def rule_r2(ctx) -> List[R.Inst]:
                             f"the time-keyed tempo list is sorted neither at construction ({w1}) nor in place before the positional "
                             f"sweeps ({w2}{'' if not g2 else ', but on a copy: the map keeps its unsorted list'})",
                             construct="time-keyed tempo list never sorted in place"))
+    # contradiction: bpm_changes_offset_to_snap sorts the list it is given, so it believes the list may be unsorted (a TimingMap
+    # can be built directly from a list in any order); reading an element by position BEFORE that sort contradicts the belief
+    if srt2 is not None and not g2 and "positionally" in w2:
+        insts.append(R.viol(rid, "time-chain:use-before-sort", M.mods[f2.mod].rel, f2.node.lineno,
+                            f"{w2}: the function sorts 'bco_s' itself, so callers may pass it unsorted (TimingMap(bpm_changes_offset=[..])); "
+                            f"the element read before the sort is then not the earliest change, and every position derived from it is wrong",
+                            construct=f"bpm_changes_offset_to_snap: {w2}"))
+    elif srt2 is not None:
+        insts.append(R.ok(rid, "time-chain:use-before-sort", M.mods[f2.mod].rel, f2.node.lineno, idiom="no positional read of the list before its own sort"))
     # the queries pair the time list with the position list index by index; the time list is put in order IN PLACE by
     # bpm_changes_snap() at first use, so a COPY of it taken before that call keeps the caller's order and pairs wrongly
     for meth in ("offsets", "snaps", "beats"):
@@ -952,7 +961,26 @@ def _snapper_table_complete(M, init, rid, file) -> List[R.Inst]:
             mname = sel[nu][0]
             mdefs = [n for n in walk_no_nested(node) if isinstance(n, ast.Assign) and len(n.targets) == 1 and isinstance(n.targets[0], ast.Name) and
                      n.targets[0].id == mname]
-            uniq = any(isinstance(n, ast.Call) and call_name(n) == "unique" for n in walk_no_nested(node))
+            uq = [n for n in walk_no_nested(node) if isinstance(n, ast.Call) and call_name(n) == "unique"]
+            uniq = bool(uq)
+            # what unique() compares must be the fractions themselves: through a rounding / cast, distinct fractions of a fine grid
+            # (1/191 and 1/192 to four decimals) count as repeats and one of them is dropped
+            for u_ in uq:
+                a0 = u_.args[0] if u_.args else None
+                if isinstance(a0, ast.Name):
+                    ds_ = [x.value for x in walk_no_nested(node) if isinstance(x, ast.Assign) and len(x.targets) == 1 and isinstance(x.targets[0], ast.Name) and
+                           x.targets[0].id == a0.id]
+                    a0 = ds_[0] if len(ds_) == 1 else a0
+                lossy = [c for c in ast.walk(a0) if isinstance(c, ast.Call) and call_name(c) in ("round", "around", "astype", "floor", "ceil", "trunc", "rint", "float32", "float16")] \
+                    if a0 is not None else []
+                if lossy:
+                    return [R.viol(rid, key, file, u_.lineno,
+                                   f"repeated fractions are pruned on '{unparse(u_.args[0])[:60]}', i.e. after '{unparse(lossy[0])[:40]}': fractions "
+                                   f"that differ by less than that precision count as one and a position of the snap grid disappears "
+                                   f"(an object exactly on it is moved to a neighbouring fraction)",
+                                   construct=f"Snapper table: unique over {unparse(u_.args[0])[:60]}")]
+                if a0 is None or not (isinstance(a0, ast.BinOp) and isinstance(a0.op, ast.Div) and unparse(a0.left) == nu and unparse(a0.right) == de):
+                    return [R.undec(rid, key, file, u_.lineno, f"what unique() compares ('{unparse(u_.args[0])[:60] if u_.args else ''}') is not the quotient {nu} / {de}")]
             if len(mdefs) == 1 and uniq:
                 def conj(e):
                     return conj(e.left) + conj(e.right) if isinstance(e, ast.BinOp) and isinstance(e.op, ast.BitAnd) else [e]
